@@ -650,7 +650,12 @@ fn external_case(task: &ExternalEquivalenceTask) -> Sexp {
         programs.push(p);
     }
     // the component functions may panic on inputs the task would reject before calling them
-    let comps = std::panic::catch_unwind(std::panic::AssertUnwindSafe(|| t::external_components(&programs, None, &task.user_guide)));
+    // the predicates of a specification count as occurring in the task (/repo 18b2e85)
+    let spec_preds = match &task.specification {
+        Either::Left(_) => None,
+        Either::Right(s) => Some(s.predicates()),
+    };
+    let comps = std::panic::catch_unwind(std::panic::AssertUnwindSafe(|| t::external_components(&programs, spec_preds, &task.user_guide)));
     match comps {
         Ok(Some(c)) => l(vec![external_task_sexp(task), c]),
         Ok(None) => skipped("fixpoint-bound"),
